@@ -99,7 +99,7 @@ func evalC11(c *Ctx, cs EnumCase) EnumResult {
 		vs = append(vs, explore.Violation{Sig: "C11:" + sig, Msg: k.name() + ": " + msg})
 	}
 	var engErr, obs string
-	rt := vrt.Run(vrt.Options{MaxPoints: 400_000_000}, func() {
+	rt := vrt.Run(vrt.Options{MaxPoints: 400_000_000, HB: true}, func() {
 		cl, err := StartLeaderFollowers(k.Followers, func(i int, cfg *hapi.Config) { cfg.AckMode = k.Mode })
 		if err != nil {
 			engErr = err.Error()
@@ -335,6 +335,9 @@ func evalC11(c *Ctx, cs EnumCase) EnumResult {
 	}
 	if rt.Crash != nil {
 		add("crash", rt.Crash.Value+"\n"+firstLines(rt.Crash.Stack, 14))
+	}
+	if mr := rt.MapRaceReport(); mr != "" {
+		add("crash/concurrent-map-access", "two threads access a map without an ordering between them (the Go runtime kills the process when they meet): "+mr)
 	}
 	if rt.Deadlock != "" {
 		add("deadlock", rt.Deadlock)
